@@ -221,7 +221,7 @@ def check():
     exl = mirlib.executor([ML])
     try:
         fe = ML.one(r"cli::<impl at oal-client/src/cli/mod\.rs[^>]*>::eval$")
-        fl = ML.one(r"cli::<impl at oal-client/src/cli/mod\.rs:21[^>]*>::load$")
+        fl = ML.sel("cli", "load", arg0=r"&Processor")
         o.functions.extend([mirlib.func_ref(fe, "oal-client"), mirlib.func_ref(fl, "oal-client")])
         for p in returns(exl.run(fe)):
             cond = S.pc(p.pc)
@@ -277,7 +277,8 @@ def relational(o, L, MC, ML, MW, bad, on_sat):
     """`run` (Processor::{load,eval} inlined, no base) vs `process`: same module set => same YAML term."""
     E = mirlib.enums()
     S = L.smt
-    exc = mirlib.executor([MC, ML], inline=[r"cli::<impl at oal-client/src/cli/mod\.rs:21[^>]*>::(load|eval)$"])
+    import re as _re
+    exc = mirlib.executor([MC, ML], inline=["^" + _re.escape(ML.sel("cli", nm, arg0=r"&Processor").name) + "$" for nm in ("load", "eval")])
     exw = mirlib.executor([MW])
     try:
         f_run = MC.one(r"^run$")
